@@ -41,12 +41,25 @@ class WorldError(Exception):
     pass
 
 
+# Tag groups: the trait-impl obligations of the three index containers carry every property whose generic proof
+# relies on "the container satisfies the IndexContainer / Storage contract" for the catalogued compositions.
+TAG_GROUPS = {
+    "@ic_push": "C05,C01,C02,C03,C04,C12,C13,C19",
+    "@ic_index": "C05,C01,C02,C03,C04,C12,C13,C19",
+    "@ic_len": "C05,C01,C02,C03,C04,C12,C13,C19",
+    "@ic_clear": "C05,C08,C01,C02,C03,C04,C12,C19",
+    "@ic_reserve": "C05,C10,C01,C02,C03,C04,C12,C19",
+}
+
+
 def _parse_kv(s):
     out = {}
     for part in shlex.split(s):
         if "=" not in part:
             raise WorldError(f"bad directive token {part!r}")
         k, v = part.split("=", 1)
+        if k in ("tags", "safety", "fstags"):
+            v = ",".join(dict.fromkeys(",".join(TAG_GROUPS.get(t, t) for t in v.split(",")).split(",")))
         out[k] = v
     return out
 
